@@ -386,7 +386,7 @@ func checkC19(c caseC19) (Outcome, error) {
 						want = fmt.Sprintf("Total: %d\n", (i+1)*60)
 					}
 				}
-				if !strings.HasPrefix(outText, want) {
+				if !strings.HasPrefix(strings.TrimLeft(outText, "\n"), want) { // blank framing lines are presentation
 					return fail("op %d: `total @%s` printed %q, the bookmark points to %s (%s)", oi, name, outText, filepath.Base(p), strings.TrimSpace(want))
 				}
 			}
